@@ -68,23 +68,58 @@ func protobufFields(w *World, name string) []string {
 // compare `switched` paths ending in .field and store into a field named target.
 func enumTable(fn *ssa.Function, caseField, targetField string) (tab map[string]string, deflt string, hasDefault bool) {
 	tab = map[string]string{}
+	// (constant, conditions under which it is the value stored): a constant stored directly, or the
+	// constant on an incoming edge of a phi that is stored (the switch assigns a temporary first)
+	type leaf struct {
+		k     *ssa.Const
+		conds []Cond
+	}
+	var leaves []leaf
+	var expand func(v ssa.Value, conds []Cond, d int)
+	seen := map[*ssa.Phi]bool{}
+	expand = func(v ssa.Value, conds []Cond, d int) {
+		switch x := v.(type) {
+		case *ssa.Const:
+			leaves = append(leaves, leaf{x, conds})
+		case *ssa.ChangeType:
+			expand(x.X, conds, d)
+		case *ssa.Phi:
+			if seen[x] || d > 6 {
+				return
+			}
+			seen[x] = true
+			for i, e := range x.Edges {
+				pred := x.Block().Preds[i]
+				cs := append([]Cond(nil), condsFor(pred)...)
+				if len(pred.Instrs) > 0 {
+					if ifi, ok := pred.Instrs[len(pred.Instrs)-1].(*ssa.If); ok && pred.Succs[0] != pred.Succs[1] {
+						cs = append(cs, Cond{ifi.Cond, pred.Succs[0] == x.Block(), ifi})
+					}
+				}
+				expand(e, cs, d+1)
+			}
+		}
+	}
 	for _, st := range storesIn(fn) {
 		_, f, _, ok := fieldRef(st.Addr)
 		if !ok || f != targetField {
 			continue
 		}
-		k, isC := st.Val.(*ssa.Const)
-		if !isC {
-			continue
-		}
-		stored := constName(k)
-		// find the innermost equality test on caseField that is true here
+		expand(st.Val, condsFor(st.Block()), 0)
+	}
+	for _, lf := range leaves {
+		stored := constName(lf.k)
+		// find an equality test on caseField that is true here
 		matched := false
-		for _, cd := range condsFor(st.Block()) {
+		for _, cd := range lf.conds {
 			cd = normCond(cd)
 			if b := asBinOp(cd.V, token.EQL); b != nil && cd.Sense {
-				if strings.HasSuffix(pathOf(b.X), "."+caseField) {
-					if kc, ok := b.Y.(*ssa.Const); ok {
+				x, y := b.X, b.Y
+				if _, isC := x.(*ssa.Const); isC {
+					x, y = y, x
+				}
+				if strings.HasSuffix(pathOf(x), "."+caseField) {
+					if kc, ok := y.(*ssa.Const); ok {
 						tab[constName(kc)] = stored
 						matched = true
 						break
@@ -95,9 +130,9 @@ func enumTable(fn *ssa.Function, caseField, targetField string) (tab map[string]
 		if !matched {
 			// default branch: all tests false
 			nFalse := 0
-			for _, cd := range condsFor(st.Block()) {
+			for _, cd := range lf.conds {
 				cd = normCond(cd)
-				if b := asBinOp(cd.V, token.EQL); b != nil && !cd.Sense && strings.HasSuffix(pathOf(b.X), "."+caseField) {
+				if b := asBinOp(cd.V, token.EQL); b != nil && !cd.Sense && (strings.HasSuffix(pathOf(b.X), "."+caseField) || strings.HasSuffix(pathOf(b.Y), "."+caseField)) {
 					nFalse++
 				}
 			}
@@ -271,7 +306,7 @@ func c14(c *Ctx) {
 						eachInstr(dec, func(in ssa.Instruction) {
 							if mu, ok := in.(*ssa.MapUpdate); ok && strings.Contains(pathOf(mu.Key), "RawSetV2") == false {
 								kp := pathOf(mu.Key)
-								if strings.Contains(kp, ".Values") && strings.Contains(pathOf(mu.Map), ".Values") {
+								if strings.Contains(kp, ".Values") && (strings.Contains(pathOf(mu.Map), ".Values") || mu.Map == v) {
 									okIns = true
 								}
 							}
@@ -324,7 +359,7 @@ func c14(c *Ctx) {
 					return
 				}
 				kp := pathOf(mu.Key)
-				mp := pathOf(mu.Map)
+				mp := mapHome(mu.Map)
 				if strings.HasSuffix(mp, ".Values") {
 					return // set members
 				}
@@ -557,6 +592,27 @@ func c14(c *Ctx) {
 					if b := asBinOp(cd.V, token.EQL); b != nil && cd.Sense {
 						if s, isS := constString(b.Y); isS {
 							rd[s] = cal.Name()
+							enc = b.X
+						}
+					}
+				}
+			}
+		}
+		// the decompressor may also be selected first and called through a variable
+		for _, cl := range callsIn(rb) {
+			if cl.Common().IsInvoke() || staticCallee(cl) != nil {
+				continue
+			}
+			for _, vc := range valueCases(cl.Common().Value, nil) {
+				f, ok := vc.V.(*ssa.Function)
+				if !ok || !strings.HasPrefix(f.Name(), "DecompressWith") {
+					continue
+				}
+				for _, cd := range vc.Conds {
+					cd = normCond(cd)
+					if b := asBinOp(cd.V, token.EQL); b != nil && cd.Sense {
+						if s, isS := constString(b.Y); isS {
+							rd[s] = f.Name()
 							enc = b.X
 						}
 					}
@@ -1054,4 +1110,62 @@ func derivesFromCall(v ssa.Value, call *ssa.Call) bool {
 		return false
 	}
 	return walk(v, 0)
+}
+
+// mapHome names the place a map value lives in: its access path, or for a map created locally the
+// map element / struct field it is stored into (m := make(...); outer[k] = m  =>  "outer[k]").
+func mapHome(v ssa.Value) string {
+	mk, ok := v.(*ssa.MakeMap)
+	if !ok {
+		return pathOf(v)
+	}
+	for _, ref := range referrers(mk) {
+		switch x := ref.(type) {
+		case *ssa.MapUpdate:
+			if x.Value == ssa.Value(mk) {
+				return pathOf(x.Map) + "[" + pathOf(x.Key) + "]"
+			}
+		case *ssa.Store:
+			if x.Val == ssa.Value(mk) {
+				return pathOf(x.Addr)
+			}
+		}
+	}
+	return pathOf(v)
+}
+
+// valueCase is one way a value can arise (a leaf below phis) with the branch conditions known there.
+type valueCase struct {
+	V     ssa.Value
+	Conds []Cond
+}
+
+// valueCases expands phis into (incoming value, conditions at the incoming edge) pairs.
+func valueCases(v ssa.Value, at *ssa.BasicBlock) []valueCase {
+	var out []valueCase
+	seen := map[*ssa.Phi]bool{}
+	var expand func(v ssa.Value, conds []Cond, d int)
+	expand = func(v ssa.Value, conds []Cond, d int) {
+		if ph, ok := v.(*ssa.Phi); ok && !seen[ph] && d < 6 {
+			seen[ph] = true
+			for i, e := range ph.Edges {
+				pred := ph.Block().Preds[i]
+				cs := append([]Cond(nil), condsFor(pred)...)
+				if len(pred.Instrs) > 0 {
+					if ifi, ok := pred.Instrs[len(pred.Instrs)-1].(*ssa.If); ok && pred.Succs[0] != pred.Succs[1] {
+						cs = append(cs, Cond{ifi.Cond, pred.Succs[0] == ph.Block(), ifi})
+					}
+				}
+				expand(e, cs, d+1)
+			}
+			return
+		}
+		out = append(out, valueCase{v, conds})
+	}
+	var cs []Cond
+	if at != nil {
+		cs = condsFor(at)
+	}
+	expand(v, cs, 0)
+	return out
 }
